@@ -1,6 +1,7 @@
 package main
 
 import (
+	"os"
 	"fmt"
 	"go/constant"
 	"go/types"
@@ -58,6 +59,16 @@ func (e *Env) pkg() *types.Package {
 	return e.c.fn.Pkg.Pkg
 }
 
+func (g *Gen) noteDirect(pkg, imported string) {
+	if g.direct == nil {
+		g.direct = map[string]map[string]bool{}
+	}
+	if g.direct[pkg] == nil {
+		g.direct[pkg] = map[string]bool{}
+	}
+	g.direct[pkg][imported] = true
+}
+
 func (g *Gen) typesPkg(path string) *types.Package {
 	for _, p := range g.prog.AllPackages() {
 		if p.Pkg.Path() == path {
@@ -95,9 +106,32 @@ func (g *Gen) resolveType(s string, pkg *types.Package) (types.Type, error) {
 	}
 	if k := strings.Index(s, "."); k >= 0 {
 		pn, tn := s[:k], s[k+1:]
+		if os.Getenv("GOVC_DEBUG_SORTS") != "" {
+			pp := "<nil>"
+			if pkg != nil {
+				pp = pkg.Path()
+			}
+			imp := g.lookupImport(pkg, pn)
+			ip := "<nil>"
+			if imp != nil {
+				ip = imp.Path()
+			}
+			fmt.Fprintf(os.Stderr, "resolve %s in %s -> import %s\n", s, pp, ip)
+		}
 		if imp := g.lookupImport(pkg, pn); imp != nil {
 			if obj := imp.Scope().Lookup(tn); obj != nil {
 				return obj.Type(), nil
+			}
+		}
+		// a package loaded from export data has no import list: use what its source files import
+		if pkg != nil {
+			want := g.aliases[pkg.Path()][pn]
+			for _, p := range g.prog.AllPackages() {
+				if (want != "" && p.Pkg.Path() == want) || (want == "" && p.Pkg.Name() == pn && g.direct[pkg.Path()][p.Pkg.Path()]) {
+					if obj := p.Pkg.Scope().Lookup(tn); obj != nil {
+						return obj.Type(), nil
+					}
+				}
 			}
 		}
 		// any loaded package with that name
@@ -139,6 +173,11 @@ func (g *Gen) lookupImport(pkg *types.Package, name string) *types.Package {
 	aliased := map[string]bool{}
 	for _, path := range g.aliases[pkg.Path()] {
 		aliased[path] = true
+	}
+	for _, imp := range pkg.Imports() {
+		if imp.Name() == name && !aliased[imp.Path()] && g.direct[pkg.Path()][imp.Path()] {
+			return imp
+		}
 	}
 	for _, imp := range pkg.Imports() {
 		if imp.Name() == name && !aliased[imp.Path()] {
